@@ -327,6 +327,9 @@ func (c *Ctx) Finish() {
 	if len(c.inconcl) > 0 {
 		cov["inconclusive_reasons"] = c.inconcl
 	}
+	if c.Assumptions == nil {
+		c.Assumptions = []string{}
+	}
 	ev := map[string]any{
 		"property_id": c.ID,
 		"tier":        c.Tier,
